@@ -319,6 +319,43 @@ def _scenario_sizeline(fx, body, seg, dc, rk, m, must, what):
     return _scenario(fx, body, seg, dc, rk, m, must, what)
 
 
+def inner_dims(part):
+    fx = BY_NAME[part["fixture"]]
+    return [list(range(len(fx.raw))), part["segs"], _rkm(part)]
+
+
+def _inner_point(idx):
+    k, seg, (rk, m) = decode_point(idx, inner_dims)
+    return N._untraced(_inner_body)(k, seg, rk, m)
+
+
+def _inner_body(k, seg, rk, m):
+    """The FRAMING is intact (right Content-Length / complete chunked body) but the compressed stream inside it stops after k
+    bytes: for zstd an incomplete stream must raise DecodeError whatever the read pattern; gzip/deflate: either outcome."""
+    from kit.fixtures import frame, CODING_HEADER
+    fx = BY_NAME[P.fixture]
+    raw = fx.raw[:k]
+    ce = CODING_HEADER[fx.coding]
+    head, body = frame(fx.framing, raw, fx.chunks, ["Content-Encoding: " + ce] if ce else [])
+
+    class _F:
+        pass
+    f2 = _F()
+    f2.head, f2.body, f2.framing, f2.coding, f2.payload, f2.raw = head, body, fx.framing, fx.coding, fx.payload, raw
+    f2.expected = lambda dc: fx.payload
+    must = ref_undecodable(fx.coding, raw) and fx.coding in ("zstd", "zstd2")
+    return _scenario(f2, body, seg, True, rk, m, must, "compressed stream stops after %d/%d bytes inside intact %s framing"
+                     % (k, len(fx.raw), fx.framing), corrupt=True)
+
+
+def c13_inner(idx: int) -> bool:
+    """
+    pre: 0 <= idx < P.n
+    post: _
+    """
+    return run(_inner_point, idx)
+
+
 def corrupt_dims(part):
     return [list(range(len(part["positions"]))), list(range(len(part["vals"]))), part["segs"], part["dcs"], _rkm(part)]
 
@@ -423,7 +460,7 @@ def c13_length(idx: int) -> bool:
     return run(_length_point, idx)
 
 
-DIMS = {"c13_cut": cut_dims, "c13_corrupt": corrupt_dims, "c13_length": length_dims}
+DIMS = {"c13_inner": inner_dims, "c13_cut": cut_dims, "c13_corrupt": corrupt_dims, "c13_length": length_dims}
 
 
 QUICK_FIX = ["cl/identity/5", "chunked/identity/5/1-2", "cl/gzip/17", "chunked/gzip/17/5", "chunked/zstd2/17/3-11", "close/zstd/17",
@@ -463,6 +500,12 @@ def JOBS(tier):
             jobs.append({"func": "c13_corrupt", "timeout": t, "path_timeout": 60, "samples": 1,
                          "part": {"fixture": fx.name, "kind": "stream", "positions": pos, "vals": [0x00, 0xFF, 0x41] if not quick else [0xFF, 0x41],
                                   "segs": segs, "dcs": [True], "rks": rks, "mmax": 2}})
+    for name in ("chunked/zstd2/17/3-11", "cl/zstd2/17", "close/zstd/17", "chunked/gzip/17/5") + (() if quick else ("chunked/zstd/40/16", "cl/zstd/17", "cl/gzip/17")):
+        fx = BY_NAME[name]
+        rks = [R_READ, R_LOOP_READ, R_LOOP_READ1, R_LOOP_READINTO, R_STREAM, R_ITER, R_READ1_ALL, R_PRELOAD, R_DATA] + \
+              ([R_READ_CHUNKED] if fx.framing == "chunked" else [])
+        jobs.append({"func": "c13_inner", "timeout": t, "path_timeout": 60, "samples": 1,
+                     "part": {"fixture": name, "segs": [1, len(fx.body) + 1], "rks": rks, "mmax": 2}})
     jobs.append({"func": "c13_length", "timeout": t, "part": {"nmax": 3 if quick else 12}})
     return jobs
 
@@ -491,7 +534,7 @@ EVIDENCE = {
                         "payloads): EVERY cut position of the body wire x segmentation {1, whole} x 10-11 read patterns (m<=2) incl. "
                         "preload/.data/drain x decode on/off, each broken response followed by a second request on the same pool; single-byte "
                         "corruption of chunk-size lines (8 values x 8 positions) and of every other byte of each coded Content-Length stream; "
-                        "Content-Length header forms with n, m <= 3; every point one solver model of a single index variable",
+                        "a compressed stream that stops early inside intact framing (every length, 4 fixtures); Content-Length header forms with n, m <= 3; every point one solver model of a single index variable",
                "thorough": "all 31 fixtures, every cut, segmentations {1,whole}, decode on/off, all size-line positions x 8 values, every "
                            "stream byte x {0x00,0xFF,0x41}, header integers <= 12"},
     "outside": ["payloads > 40 bytes", "the codecs (C)", "cuts inside the status line / header block (C01, C03 cover those faults)",
